@@ -124,7 +124,8 @@ def run(ctx):
                 v["ops"] = ops
             cases.append(v)
     # a nearly full index leaf under every configuration: here deferred deletion really defers (the leaf stays more than half full)
-    for c in c02.bulk_histories():
+    # (without the histories that outgrow the attribute heap: that defect, recorded under C02, is the same in every configuration)
+    for c in c02.bulk_histories(heavy=False):
         for rb in RBS:
             v = copy.deepcopy(c)
             v["cfg"]["rb"] = rb
